@@ -323,7 +323,9 @@ static void parseQuery(void *inFrame, lltd_iface_state *st, void *iface_ctx) {
     }
 
     uint16_t num_descs = (st->see_list_count > max_descs) ? (uint16_t)max_descs : (uint16_t)st->see_list_count;
-    respH->numDescs = lltd_htons(num_descs);
+    /* MS-LLTD QueryResp: bit 15 of the count word tells the mapper that more descriptors remain. */
+    bool more = (num_descs > 0 && st->see_list_count > num_descs);
+    respH->numDescs = lltd_htons((uint16_t)(num_descs | (more ? 0x8000 : 0)));
     offset += sizeof(*respH);
 
     probe_t *node = st->see_list;
@@ -349,7 +351,17 @@ static void parseQuery(void *inFrame, lltd_iface_state *st, void *iface_ctx) {
     (void)lltd_port_send_frame(iface_ctx, buffer, offset);
     lltd_port_free(buffer);
 
-    lltd_state_clear_seen_probes(st);
+    if (more) {
+        /* Drop only what was reported; the rest is delivered by the following Queries. */
+        while (st->see_list != NULL && st->see_list != node) {
+            probe_t *next = (probe_t *)st->see_list->nextProbe;
+            lltd_port_free(st->see_list);
+            st->see_list = next;
+            st->see_list_count--;
+        }
+    } else {
+        lltd_state_clear_seen_probes(st);
+    }
 }
 
 static void sendLargeTlvResponse(lltd_iface_state *st,
